@@ -118,6 +118,12 @@ def run(ctx):
         for m in (3010, 3361, 62071, 62135, 62215, 2657, 22138, 12345):
             for tail in (b"\r\n", b"AA", b"\x00\x00"):
                 cases.append(("magic:%d:%s" % (m, tail.hex()), struct.pack("<H", m) + tail + b"\0" * 60))
+        # every magic number the tables know (a table row that cannot be turned into a version must not escape)
+        for m in sorted(set(int(mm) for mm, _ in ctx.tables["magics"]["magicint2version"])):
+            if m > 65535:
+                continue
+            cases.append(("magic:%d:0d0a" % m, struct.pack("<H", m) + b"\r\n" + b"\0" * 60))
+            cases.append(("magic:%d:code" % m, struct.pack("<H", m) + b"\r\n" + b"\0" * 12 + b"c" + b"\x01" * 47))
         for _ in range(40 if not ctx.thorough else 2000):
             cases.append(("random", bytes(rng.randrange(256) for _ in range(rng.choice([0, 3, 49, 50, 51, 200])))))
         louts = drv.ask(["x.loadmodule 230 %s" % (c.hex() or "-") for _, c in cases])
